@@ -26,8 +26,30 @@ def pmap(mod, cases, procs=None, fn="run_case"):
     if len(cases) <= 1 or procs == 1:
         return [_wrap((mod.__name__, c, fn)) for c in cases]
     ctx = mp.get_context("fork")
+    # A worker that is killed from outside (the kernel's OOM killer, say) takes its task with it and Pool.map would wait for
+    # ever.  Results are therefore collected as they complete, under a watchdog: if nothing completes for STALL_S seconds the
+    # outstanding cases are recorded as inconclusive (never as held, never as violated) and the pool is torn down.
+    stall = int(os.environ.get("VERIF_STALL_S") or getattr(mod, "STALL_S", 1500))
+    out = [None] * len(cases)
     with ctx.Pool(procs) as pool:
-        return pool.map(_wrap, [(mod.__name__, c, fn) for c in cases], chunksize=1)
+        it = pool.imap_unordered(_wrap_indexed, [(i, mod.__name__, c, fn) for i, c in enumerate(cases)], chunksize=1)
+        done = 0
+        while done < len(cases):
+            try:
+                i, r = it.next(timeout=stall)
+            except mp.TimeoutError:
+                break
+            except StopIteration:
+                break
+            out[i] = r
+            done += 1
+        if done < len(cases):
+            pool.terminate()
+    return [r if r is not None else {"inconc": ["harness-task-lost"]} for r in out]
+
+
+def _wrap_indexed(a):
+    return a[0], _wrap(a[1:])
 
 
 def absorb(rep, case, res, max_traces=[3]):
